@@ -96,8 +96,7 @@ def run_schedule(ctx, side, choices, rng, bound):
                'labels': [[a, lbl] for a, lbl in sched.labels][-60:]}
         errs = list(sched.errors) + errors()
         if sched.aborted:
-            ctx.violation(None, 'schedule did not complete: %s' %
-                          sched.aborted, wit)
+            SC.report_abort(ctx, sched, wit)
             return trace
         if errs:
             wit['errors'] = [{'exc': e.get('exc'), 'tb': (e.get('tb') or
